@@ -95,6 +95,15 @@ def bulk_setter(repo: Repo, rep, P: str, pat, fn: ast.FunctionDef):
     for n in g.nodes:
         if n.kind == "for" and isinstance(n.ast.iter, ast.Name) and n.ast.iter.id in user_iter_vars and n not in user_nodes:
             user_nodes.append(n)
+    # (e) a per-cell callable handed to a lazy iterator: its StopIteration is taken for exhaustion
+    for c in walk_no_nested(fn):
+        if isinstance(c, ast.Call) and norm(c.func).split(".")[-1] in ("map", "filter", "starmap", "filterfalse", "takewhile",
+                                                                      "dropwhile", "accumulate", "iter") \
+                and c.args and isinstance(c.args[0], ast.Name) and c.args[0].id == user:
+            rep.violation(f"{P}.R1", construct, norm(c),
+                          f"the per-cell callable `{user}` runs inside a lazy iterator: a StopIteration raised by it is "
+                          "taken as normal exhaustion by the consuming loop, so the failure is swallowed and the partly "
+                          "filled copy is installed", f"{rel}:{c.lineno}")
     commits = [n for n in g.nodes if commits_in(n)]
     rep.count(f"{fn.name}.user_call_sites", len(user_nodes), 1)
     rep.count(f"{fn.name}.commit_sites", len(commits))
@@ -147,7 +156,9 @@ def bulk_setter(repo: Repo, rep, P: str, pat, fn: ast.FunctionDef):
     defs: Dict[str, ast.expr] = {}
     for n in walk_no_nested(fn):
         if isinstance(n, ast.Assign) and len(n.targets) == 1 and isinstance(n.targets[0], ast.Name):
-            defs.setdefault(n.targets[0].id, n.value)
+            value, owner = _through_helper(pat, n.value, fn)
+            defs.setdefault(n.targets[0].id, value)
+            _memo_fresh(rep, P, construct, rel, value, owner)
     aliases: Set[str] = set()
     depth_of: Dict[str, int] = {}
     changed = True
@@ -241,6 +252,66 @@ def bulk_setter(repo: Repo, rep, P: str, pat, fn: ast.FunctionDef):
                 "cfg_nodes": len(g.nodes)})
 
 
+def _through_helper(pat, e: ast.expr, fn: ast.FunctionDef):
+    """`self.helper()` whose body ends in `return <expr>` is read as <expr> (one level)."""
+    if isinstance(e, ast.Call) and isinstance(e.func, ast.Attribute) and norm(e.func.value) == "self":
+        h = pat.methods.get(e.func.attr)
+        if h is not None and h.body and isinstance(h.body[-1], ast.Return) and h.body[-1].value is not None \
+                and sum(isinstance(x, ast.Return) for x in ast.walk(h)) == 1:
+            return h.body[-1].value, h
+    return e, fn
+
+
+MUTABLE_LITERALS = (ast.Dict, ast.List, ast.Set)
+
+
+def _memo_fresh(rep, P: str, construct: str, rel: str, e: ast.expr, owner: ast.FunctionDef):
+    """deepcopy(x, memo): the memo must be created inside the call that makes the working copy. A memo that
+    outlives the call still maps the live cells to the scratch copy of an earlier (possibly failed) edit, and
+    the next bulk edit starts from that stale copy."""
+    if not (isinstance(e, ast.Call) and norm(e.func) in ("deepcopy", "copy.deepcopy")):
+        return
+    memo = e.args[1] if len(e.args) > 1 else next((k.value for k in e.keywords if k.arg == "memo"), None)
+    if memo is None:
+        return
+    where = f"{rel}:{e.lineno}"
+    text = norm(e)
+    if isinstance(memo, (ast.Dict,)) or (isinstance(memo, ast.Call) and norm(memo.func) == "dict"):
+        rep.ok(f"{P}.R2", construct, text, "deepcopy memo is a fresh dict")
+        return
+    if isinstance(memo, ast.Name):
+        args = owner.args
+        pos = [a.arg for a in args.args]
+        defaults = dict(zip(pos[len(pos) - len(args.defaults):], args.defaults))
+        defaults.update({a.arg: d for a, d in zip(args.kwonlyargs, args.kw_defaults) if d is not None})
+        if memo.id in pos or memo.id in [a.arg for a in args.kwonlyargs]:
+            d = defaults.get(memo.id)
+            if isinstance(d, MUTABLE_LITERALS) or (isinstance(d, ast.Call) and norm(d.func) in ("dict", "defaultdict")):
+                rep.violation(f"{P}.R2", construct, f"def {owner.name}(..., {memo.id}={norm(d)}); {text}",
+                              "the deepcopy memo is a mutable default argument and persists across bulk edits: after a "
+                              "failed edit it still maps the live cells to the abandoned scratch copy, which the next "
+                              "edit then starts from", where)
+                return
+            rep.inconclusive(f"{P}.R2", construct, text, f"deepcopy memo comes from parameter `{memo.id}`", where)
+            return
+        local = [n for n in walk_no_nested(owner) if isinstance(n, ast.Assign)
+                 and any(isinstance(t, ast.Name) and t.id == memo.id for t in n.targets)]
+        if local and all(isinstance(n.value, ast.Dict) or (isinstance(n.value, ast.Call) and norm(n.value.func) == "dict")
+                         for n in local):
+            rep.ok(f"{P}.R2", construct, text, "deepcopy memo is a fresh local dict")
+            return
+        if not local:
+            rep.violation(f"{P}.R2", construct, text,
+                          f"the deepcopy memo `{memo.id}` is not created in this call (module-level or closure state): "
+                          "it persists across bulk edits", where)
+            return
+    if isinstance(memo, ast.Attribute):
+        rep.violation(f"{P}.R2", construct, text,
+                      f"the deepcopy memo `{norm(memo)}` is stored on an object and persists across bulk edits", where)
+        return
+    rep.inconclusive(f"{P}.R2", construct, text, "deepcopy memo of unrecognised origin", where)
+
+
 # ------------------------------------------------------------------------------------ R3
 def _pattern_store(n: ast.AST) -> Optional[ast.Assign]:
     if isinstance(n, ast.Assign):
@@ -293,6 +364,15 @@ def ownership(repo: Repo, rep, P: str, pat):
         est = _establishment(fn, g, committed, pat)
         if est == "all":
             rep.ok(f"{P}.R3", construct, text, "note.pattern = self is established for every installed note on every normal path")
+        elif est and est.startswith("valueeq"):
+            eqdef = _value_equality(pat)
+            if eqdef:
+                rep.violation(f"{P}.R3", construct, "if note.pattern != self: note.pattern = self",
+                              f"ownership is re-established only when `note.pattern != self`, but Pattern compares by value "
+                              f"({eqdef}): a note owned by a different, equal-looking pattern keeps its stale owner",
+                              f"{rel}:{est.split(':')[1]}")
+            else:
+                rep.ok(f"{P}.R3", construct, text, "`!=` on Pattern is identity comparison (no __eq__)")
         elif est == "partial":
             rep.violation(f"{P}.R3", construct, text,
                           "note.pattern = self is assigned only for some of the installed notes (the copied, untouched "
@@ -306,6 +386,26 @@ def ownership(repo: Repo, rep, P: str, pat):
                           "the installed notes (returned by the user callable / deep-copied from the old contents) are "
                           "never given pattern = self, so note.project / note.mod stop working after a bulk edit", where)
     rep.count("functions_installing_contents", n_fn, 3)
+
+
+def _owns(body: List[ast.stmt], cell: str) -> Optional[str]:
+    """Does `body` set <cell>.pattern = self?  'all': unconditionally or under `<cell>.pattern is not self`;
+    'valueeq': only under a value comparison (`!=`), which is not an ownership test."""
+    def direct(st):
+        return isinstance(st, ast.Assign) and any(isinstance(t, ast.Attribute) and t.attr == "pattern"
+                                                  and norm(t.value) == cell for t in st.targets) and norm(st.value) == "self"
+    for st in body:
+        if direct(st):
+            return "all"
+        if isinstance(st, ast.If) and any(direct(x) for x in st.body) and isinstance(st.test, ast.Compare) \
+                and len(st.test.ops) == 1:
+            sides = {norm(st.test.left), norm(st.test.comparators[0])}
+            if sides == {f"{cell}.pattern", "self"}:
+                if isinstance(st.test.ops[0], ast.IsNot):
+                    return "all"
+                if isinstance(st.test.ops[0], ast.NotEq):
+                    return "valueeq"
+    return None
 
 
 def _establishment(fn, g: CFG, committed: Set[str], pat) -> Optional[str]:
@@ -329,8 +429,10 @@ def _establishment(fn, g: CFG, committed: Set[str], pat) -> Optional[str]:
         for inner in outer.body:
             if isinstance(inner, ast.For) and norm(inner.iter) == rowv and isinstance(inner.target, ast.Name):
                 cell = inner.target.id
-                if any(isinstance(s, ast.Assign) and any(isinstance(t, ast.Attribute) and t.attr == "pattern"
-                       and norm(t.value) == cell for t in s.targets) and norm(s.value) == "self" for s in inner.body):
+                how = _owns(inner.body, cell)
+                if how == "valueeq":
+                    return "valueeq:" + str(inner.lineno)
+                if how == "all":
                     # on every normal path?
                     wo = g.reachable(avoid={n.id}, labels_excluded={"exc", "reraise", "nomatch"})
                     if g.exit in wo:
@@ -365,6 +467,20 @@ def _establishment(fn, g: CFG, committed: Set[str], pat) -> Optional[str]:
                 if owned:
                     found_partial = True
     return "partial" if found_partial else None
+
+
+def _value_equality(pat) -> Optional[str]:
+    """How the Pattern class gets a value-based __eq__, if it does."""
+    if "__eq__" in pat.methods:
+        return "__eq__ defined"
+    for d in pat.node.decorator_list:
+        name = norm(d.func if isinstance(d, ast.Call) else d).split(".")[-1]
+        if name in ("attributes", "attrs", "s", "define", "mutable", "dataclass", "frozen"):
+            if isinstance(d, ast.Call) and any(k.arg in ("eq", "cmp") and isinstance(k.value, ast.Constant) and k.value.value is False
+                                               for k in d.keywords):
+                continue
+            return f"@{norm(d)[:40]} generates __eq__"
+    return None
 
 
 def note_project_path(repo: Repo, rep, P: str):
